@@ -37,6 +37,14 @@ func (*implAB) B() {}
 
 type valImplA struct{ id int } // value receiver: both T and *T implement ifaceA
 
+// right method names, wrong signatures: implement none of the interfaces
+type wrongSigA struct{}
+type wrongSigAB struct{}
+
+func (*wrongSigA) A(int)        {}
+func (*wrongSigAB) A() error    { return nil }
+func (*wrongSigAB) B(...string) {}
+
 func (valImplA) A() {}
 
 var handlerTypes = []interface{}{(*ifaceA)(nil), (*ifaceB)(nil), (*ifaceAB)(nil)}
@@ -115,11 +123,11 @@ func goodHandler(r *rand.Rand, ht interface{}) interface{} {
 func badHandler(r *rand.Rand, ht interface{}) interface{} {
 	switch ht.(type) {
 	case *ifaceA:
-		return pick[interface{}](r, &implB{1}, implA{2}, "not a handler", 42, struct{}{})
+		return pick[interface{}](r, &implB{1}, implA{2}, "not a handler", 42, struct{}{}, &wrongSigA{}, &wrongSigAB{})
 	case *ifaceB:
-		return pick[interface{}](r, &implA{1}, implB{2}, valImplA{3})
+		return pick[interface{}](r, &implA{1}, implB{2}, valImplA{3}, &wrongSigAB{})
 	default:
-		return pick[interface{}](r, &implA{1}, &implB{2}, implAB{3})
+		return pick[interface{}](r, &implA{1}, &implB{2}, implAB{3}, &wrongSigAB{}, &wrongSigA{})
 	}
 }
 
